@@ -14,6 +14,7 @@ from jaxtyping import jaxtyped
 LEVEL = "proof"
 THEOREMS = [
     "C13_iff",
+    "C13_stage",
     "C13_annotation_error",
     "C13_blame",
     "C13_bindings",
